@@ -98,6 +98,7 @@ type hist struct {
 	slow     int
 	seg      bool
 	to0      bool
+	cbPanic  int    // nbc: 1 + index of the request whose callback panics when it is invoked (0: none)
 	dialFail int    // nbc/nbcli: the first dialFail dial attempts of the client fail ...
 	dialKind string // ... with a refusal (a port nobody listens on) or a dial timeout
 	failAt   int    // nbx: index of the request whose body reader fails (its write fails mid-way)
@@ -393,7 +394,13 @@ func genHist(g *lp.Gen, cid int, thorough bool) {
 			n = dialFail + 1
 		}
 	}
-	g.P("K %d %s sched=%s slow=%d seg=%d to0=%d dialfail=%d dialkind=%s", cid, kind, sched.String(), slow, b(seg), b(to0), dialFail, dialKind)
+	// user code that panics: the callback of one request panics when it is invoked (ClientConn kinds; the response
+	// jobs run under the recover wrapper of Conn.execute, so the client goes on)
+	cbPanic := 0
+	if kind == "nbc" && g.Chance(1, 7) {
+		cbPanic = 1 + dialFail + g.Intn(n-dialFail)
+	}
+	g.P("K %d %s sched=%s slow=%d seg=%d to0=%d dialfail=%d dialkind=%s cbpanic=%d", cid, kind, sched.String(), slow, b(seg), b(to0), dialFail, dialKind, cbPanic)
 	rid := 0
 	closedFor := false
 	// RFC 7230 6.6 reset hazard: a server that closes while requests are still unread resets the connection,
@@ -610,6 +617,48 @@ var served sync.Map
 
 func servedKey(cid, rid int) string { return strconv.Itoa(cid) + "/" + strconv.Itoa(rid) }
 
+// handlerLog: per history, the request ids in the order their handlers were entered (server side)
+var (
+	hlogMu sync.Mutex
+	hlog   = map[int][]int{}
+)
+
+func hlogAdd(cid, rid int) {
+	hlogMu.Lock()
+	hlog[cid] = append(hlog[cid], rid)
+	hlogMu.Unlock()
+}
+
+func hlogTake(cid int) []int {
+	hlogMu.Lock()
+	defer hlogMu.Unlock()
+	l := hlog[cid]
+	delete(hlog, cid)
+	return l
+}
+
+// checkHandlers: each handler at most once; on a single connection (raw, nbc, nbx) in request order
+func (h *hist) checkHandlers() {
+	l := hlogTake(h.cid)
+	seen := map[int]int{}
+	for _, rid := range l {
+		seen[rid]++
+	}
+	for rid, n := range seen {
+		if n > 1 {
+			h.fail(false, "c10-order", "handler of request %d ran %d times", rid, n)
+		}
+	}
+	if h.kind == "raw" || h.kind == "nbc" {
+		for i := 1; i < len(l); i++ {
+			if l[i] <= l[i-1] {
+				h.fail(false, "c10-order", "handlers ran out of request order on one connection: %v", l)
+				break
+			}
+		}
+	}
+}
+
 func handler(w http.ResponseWriter, r *http.Request) {
 	// /c/<cid>/r/<rid>?st=&sz=&fr=&w=&fl=&d=
 	p := strings.Split(r.URL.Path, "/")
@@ -622,6 +671,7 @@ func handler(w http.ResponseWriter, r *http.Request) {
 	q := r.URL.Query()
 	geti := func(k string) int { n, _ := strconv.Atoi(q.Get(k)); return n }
 	st, sz, fr, nw, fl, d := geti("st"), geti("sz"), q.Get("fr"), geti("w"), q.Get("fl") == "1", geti("d")
+	hlogAdd(cid, rid)
 	var rb []byte
 	if r.Body != nil {
 		rb, _ = io.ReadAll(r.Body)
@@ -1233,7 +1283,19 @@ type cbRec struct {
 
 // cbFunc: the callback of one request.  The first invocation is the result; every further one is recorded.
 func cbFunc(rec *cbRec, done *int32, progress chan struct{}) func(res *http.Response, conn net.Conn, err error) {
+	return cbFuncP(rec, done, progress, false)
+}
+
+// cbFuncP: with panics == true the callback panics at the end of its first invocation (user code that panics: the
+// invocation counts, and it must not make the client invoke this or any other callback a second time)
+func cbFuncP(rec *cbRec, done *int32, progress chan struct{}, panics bool) func(res *http.Response, conn net.Conn, err error) {
 	return func(res *http.Response, conn net.Conn, err error) {
+		first := atomic.LoadInt32(&rec.n) == 0
+		defer func() {
+			if panics && first {
+				panic("he2e: this callback panics")
+			}
+		}()
 		if atomic.AddInt32(&rec.n, 1) == 1 {
 			rec.err = err
 			if err == nil && res != nil {
@@ -1349,7 +1411,7 @@ func (s *server) runNbc(h *hist) {
 		}
 		{
 			rec := recs[i]
-			cc.Do(s.httpRequest(h.cid, r), cbFunc(rec, &done, progress))
+			cc.Do(s.httpRequest(h.cid, r), cbFuncP(rec, &done, progress, h.cbPanic == i+1))
 		}
 	}
 collect:
@@ -1709,7 +1771,7 @@ func parseCase(lines []string) (*caseT, error) {
 				return nil, fmt.Errorf("bad K line")
 			}
 			cid, _ := strconv.Atoi(f[1])
-			h := &hist{cid: cid, kind: f[2], slow: kvi(f, "slow"), seg: kv(f, "seg") == "1", to0: kv(f, "to0") == "1", failAt: kvi(f, "fail"), dialFail: kvi(f, "dialfail"), dialKind: kv(f, "dialkind"), res: map[int]*result{}}
+			h := &hist{cid: cid, kind: f[2], slow: kvi(f, "slow"), seg: kv(f, "seg") == "1", to0: kv(f, "to0") == "1", failAt: kvi(f, "fail"), dialFail: kvi(f, "dialfail"), dialKind: kv(f, "dialkind"), cbPanic: kvi(f, "cbpanic"), res: map[int]*result{}}
 			switch h.kind {
 			case "raw", "std", "nbc", "nbcli", "nbx":
 			default:
@@ -1738,7 +1800,7 @@ func parseCase(lines []string) (*caseT, error) {
 // freshHist: a copy of the static part of h with empty results — every attempt runs on its own copy, so a client
 // call that never returns (and the goroutine stuck in it) cannot touch what a later attempt or the printer reads
 func freshHist(h *hist, cliEpoll string) *hist {
-	cl := &hist{cid: h.cid, kind: h.kind, slow: h.slow, seg: h.seg, to0: h.to0, dialFail: h.dialFail, dialKind: h.dialKind,
+	cl := &hist{cid: h.cid, kind: h.kind, slow: h.slow, seg: h.seg, to0: h.to0, dialFail: h.dialFail, dialKind: h.dialKind, cbPanic: h.cbPanic,
 		failAt: h.failAt, reqs: h.reqs, res: map[int]*result{}, cut: -1, cliEpoll: cliEpoll}
 	for _, r := range h.reqs {
 		cl.res[r.rid] = &result{cb: -1}
@@ -1764,6 +1826,7 @@ func (c *caseT) runOnce() error {
 		}
 		r := &run{h: h, clone: cl, done: make(chan struct{})}
 		runs = append(runs, r)
+		hlogTake(h.cid) // entries of an earlier attempt
 		go func(h *hist, done chan struct{}) {
 			defer close(done)
 			defer func() {
@@ -1771,6 +1834,7 @@ func (c *caseT) runOnce() error {
 					h.fail(false, "c10-order", "harness client panicked: %v", e)
 				}
 			}()
+			defer h.checkHandlers()
 			switch h.kind {
 			case "raw":
 				s.runRaw(h)
